@@ -89,6 +89,48 @@ func atomicCalls(fn *ssa.Function, field *types.Var, method string) []ssa.CallIn
 	return out
 }
 
+// markerStores lists the instructions of fn that set the atomic bool field to val: a direct Store(val), or a call to a
+// same-package helper that does so — on all of its paths when must is set (a gate), on some path otherwise.
+func markerStores(fn *ssa.Function, field *types.Var, val bool, must bool) []ssa.Instruction {
+	isStore := func(in ssa.Instruction) bool {
+		ci, ok := in.(ssa.CallInstruction)
+		if !ok {
+			return false
+		}
+		for _, s := range atomicCalls(in.Parent(), field, "Store") {
+			if s == ci && kit.IsBoolConst(s.Common().Args[1], val) {
+				return true
+			}
+		}
+		return false
+	}
+	var out []ssa.Instruction
+	for _, b := range fn.Blocks {
+		for _, in := range b.Instrs {
+			if isStore(in) {
+				out = append(out, in)
+				continue
+			}
+			ci, ok := in.(ssa.CallInstruction)
+			if !ok {
+				continue
+			}
+			h := ci.Common().StaticCallee()
+			if h == nil || h.Pkg != fn.Pkg || len(h.Blocks) == 0 {
+				continue
+			}
+			if must {
+				if kit.MustDo(h, isStore, 2) {
+					out = append(out, in)
+				}
+			} else if len(kit.Instrs(h, isStore)) > 0 {
+				out = append(out, in)
+			}
+		}
+	}
+	return out
+}
+
 func updateStatusCalls(c *Ctx, r string, fn *ssa.Function, rel string) []ssa.CallInstruction {
 	m := c.W.LookupFunc(rel, "PipelineService.UpdateStatus")
 	if m == nil {
@@ -163,6 +205,7 @@ func runC10(c *Ctx) {
 	c10R8(c)
 	c10R10(c)
 	c10R11(c)
+	c10R12(c)
 	c07R4As(c, c.R.Rule("R9", "K3 (= C07.R4) the DLQ's fatal causes: in both engines a nack the window refuses is a fatal error when the DLQ is enabled, and a v2 DLQ write failure — a failed call or a negative per-record ack — is fatal", 6))
 }
 
@@ -381,10 +424,8 @@ func c10R8As(c *Ctx, r string) {
 		}
 		if fn := c.SSA(r, rel, stopFn); fn != nil && kill != nil {
 			g := kit.NewGates()
-			for _, s := range atomicCalls(fn, intent, "Store") {
-				if kit.IsBoolConst(s.Common().Args[1], true) {
-					g.AddInstr(s, "")
-				}
+			for _, s := range markerStores(fn, intent, true, true) {
+				g.AddInstr(s, "")
 			}
 			c.Dominated(r, eng+" "+stopFn+": marker set before the tomb is killed by a stop", asInstrs(kit.CallsTo(fn, Set(kill))), g, "intentionalStop.Store(true)")
 		}
@@ -891,14 +932,8 @@ func c10R5(c *Ctx) {
 	r := c.R.Rule("R5", "K3 deliberate-stop markers: v2 stores intentionalStop before stopping any worker and clears it only when nothing was armed; StopAll marks the shutdown first", 3)
 	if fn := c.SSA(r, pLife2, "(*Service).stopRunnablePipeline"); fn != nil {
 		intent := c.Field(r, pLife2, "runnablePipeline", "intentionalStop")
-		var setTrue, setFalse []ssa.Instruction
-		for _, s := range atomicCalls(fn, intent, "Store") {
-			if kit.IsBoolConst(s.Common().Args[1], true) {
-				setTrue = append(setTrue, s)
-			} else {
-				setFalse = append(setFalse, s)
-			}
-		}
+		setTrue := markerStores(fn, intent, true, true)
+		setFalse := markerStores(fn, intent, false, false)
 		c.R.Check(len(setTrue) >= 1, r, "stopRunnablePipeline: marks the stop as intentional", c.Pos(fn.Pos()), "ok", "stopRunnablePipeline no longer sets intentionalStop", true)
 		// worker stops happen in goroutine literals spawned after the marker
 		wstop := Set(c.Fn(r, pFunnel, "(*Worker).Stop"))
@@ -919,6 +954,33 @@ func c10R5(c *Ctx) {
 			c.R.Fail(r, "stopRunnablePipeline: worker stops", c.Pos(fn.Pos()), "no Worker.Stop call found")
 		}
 		c.Dominated(r, "stopRunnablePipeline: marker set before any worker is stopped", spawns, g, "intentionalStop.Store(true)")
+		// F54: a graceful stop that armed nothing (its deadline ran out) takes back only its OWN request: wherever
+		// the marker is cleared in the package, it is behind a "no other stop request holds it" test — a counter of
+		// the run compared with zero (or the clear is a CompareAndSwap owned by the caller) — never unconditional
+		if p2 := c.W.Pkg(pLife2); p2 != nil {
+			T := c.W.LookupType(pLife2, "runnablePipeline")
+			nClr := 0
+			for _, ff := range c.W.AllFuncs(c.W.SSA[p2.Types]) {
+				for _, st := range atomicCalls(ff, intent, "Store") {
+					if !kit.IsBoolConst(st.Common().Args[1], false) {
+						continue
+					}
+					nClr++
+					gz := kit.NewGates()
+					if T != nil {
+						stt := T.Underlying().(*types.Struct)
+						for i := 0; i < stt.NumFields(); i++ {
+							f := stt.Field(i)
+							if b, ok := f.Type().Underlying().(*types.Basic); ok && b.Info()&types.IsInteger != 0 {
+								gz.AddEdges(kit.IntRangeEdges(ff, func(v ssa.Value) bool { return kit.IsFieldLoad(v, f) }, 0, 0), f.Name()+" == 0")
+							}
+						}
+					}
+					c.Dominated(r, kit.FuncKey(ff)+": the stop marker is cleared only when no other stop request holds it", []ssa.Instruction{st}, gz, "a `<request counter> == 0` edge")
+				}
+			}
+			c.R.Check(nClr >= 1, r, "v2: the stop marker can be taken back", c.Pos(fn.Pos()), "found", "no intentionalStop.Store(false) found in the arch-v2 lifecycle package", true)
+		}
 		// "armed" means "Worker.Stop set the flag": the flag has no other writer (a worker whose Do already
 		// returned must not look armed, or the marker of a stop issued during the back-off is cleared again)
 		stopF := c.Field(r, pFunnel, "Worker", "stop")
@@ -1051,6 +1113,7 @@ func runC11(c *Ctx) {
 	c11R10(c)
 	c11R13(c)
 	c11R14(c)
+	c11R15(c)
 	c10R1As(c, c.R.Rule("R12", "K3 (= C10.R1) the stored status agrees with how the run ended: in the cleanup goroutine of both engines Degraded is written only for a fatal error or a failed recovery, and a stopped status only where the run's error is known not to be fatal", 14))
 	r11 := c.R.Rule("R11", "K5 frozen guarded-by table: pipeline.Instance.status is read and written only under statusLock (the status Start/Stop decide on is never a torn or stale read)", 2)
 	c.guardTable(r11, guardEntry{Rel: pPipe, Struct: "Instance", Mutex: "statusLock", Fields: []string{"status"}, Min: 2})
@@ -1095,7 +1158,7 @@ func c11R13(c *Ctx) {
 // c11R10: a run whose start-up fails after its nodes were started is ended
 // before Start reports the failure (F16).
 func c11R10(c *Ctx) {
-	r := c.R.Rule("R10", "K4 v1 failed start ends the run: on the failure edge of UpdateStatus(Running) in runPipeline (nodes already started, cleanup goroutine not yet registered) every exit has un-published the run, killed its tomb and joined the node goroutines", 3)
+	r := c.R.Rule("R10", "K4 a failed start ends the run (both engines): on the failure edge of UpdateStatus(Running) in runPipeline every exit has killed the run's tomb and joined it (v1: un-published the run, killed its tomb, joined the node goroutines; v2: killed the tomb and waited for it)", 5)
 	fn := c.SSA(r, pLife, "(*Service).runPipeline")
 	kill := c.W.ExtMethod("gopkg.in/tomb.v2", "Tomb", "Kill")
 	wait := c.W.ExtMethod("sync", "WaitGroup", "Wait")
@@ -1126,6 +1189,33 @@ func c11R10(c *Ctx) {
 	}
 	if n == 0 {
 		c.R.Fail(r, "v1 runPipeline: failure edge of the Running status write", c.Pos(fn.Pos()), "no failure edge of UpdateStatus(StatusRunning) found")
+	}
+	// v2 (F52): the workers were released and the run published before the Running status is written; when that
+	// write fails Start reports the failure, so the run must not stay live behind it: it is killed (fatal — a failed
+	// start is not "recovered") and joined before the error is returned
+	if fn2 := c.SSA(r, pLife2, "(*Service).runPipeline"); fn2 != nil {
+		twait := c.W.ExtMethod("gopkg.in/tomb.v2", "Tomb", "Wait")
+		m := 0
+		for _, us := range updateStatusCalls(c, r, fn2, pLife2) {
+			if !statusIs(c, statusArg(us), "StatusRunning") {
+				continue
+			}
+			for _, e := range kit.FailEdges(us) {
+				m++
+				for _, t := range []struct {
+					set  kit.FuncSet
+					what string
+				}{{Set(kill), "kills the tomb"}, {Set(twait), "waits for the run to end"}} {
+					g := kit.NewGates()
+					for _, call := range kit.CallsTo(fn2, t.set) {
+						g.AddInstr(call, t.what)
+					}
+					ok, _ := kit.AllExitsFromEdge(e, false, kit.ExitSpec{Gates: g})
+					c.R.Check(ok && !g.Empty(), r, "v2 runPipeline: failed Running write "+t.what, c.Pos(us.Pos()), "on every exit", "an exit after a failed UpdateStatus(Running) in the arch-v2 runPipeline skips the step that "+t.what+": Start returns the error while the workers keep running with their connectors open — after a recovery restart the run lives on behind the Degraded status the recovery arm writes, which Stop refuses to touch", true)
+				}
+			}
+		}
+		c.R.Check(m >= 1, r, "v2 runPipeline: failure edge of the Running status write", c.Pos(fn2.Pos()), "found", "no failure edge of UpdateStatus(StatusRunning) found in the arch-v2 runPipeline", true)
 	}
 }
 
@@ -1376,7 +1466,16 @@ func c11R4(c *Ctx) {
 		ch   ssa.Value
 	}{{"registered", regCh}, {"startupDone", sdCh}} {
 		cls := closesOf(t.ch)
-		c.R.Check(len(cls) == 1, r, "v2 runPipeline: "+t.name+" closed exactly once", c.Pos(run.Pos()), "ok", "the "+t.name+" barrier is not closed exactly once (a second close panics, none wedges the run)", true)
+		// exactly once on every path: at least one close site, and no close site can be reached from another
+		twice := false
+		for _, a := range cls {
+			for _, b := range cls {
+				if a != b && kit.Reaches(a, b, nil) {
+					twice = true
+				}
+			}
+		}
+		c.R.Check(len(cls) >= 1 && !twice, r, "v2 runPipeline: "+t.name+" closed exactly once", c.Pos(run.Pos()), "ok", "the "+t.name+" barrier is not closed exactly once on every path (a second close panics, none wedges the run)", true)
 		g := kit.NewGates()
 		for _, x := range cls {
 			g.AddInstr(x, "")
@@ -1951,5 +2050,115 @@ func c11R14(c *Ctx) {
 			}
 		}
 		c.R.Check(arm, r, "InjectControlMessage: the wait ends when the node stops", c.Pos(sel.Pos()), "an arm on a channel cleanup closes", "the select in InjectControlMessage has no arm on a channel that pubNodeBase.cleanup closes: a stop racing a node that is ending waits until its own context is cancelled — StopAll at shutdown uses context.Background(), so SIGTERM never completes", true)
+	}
+}
+
+// c11R15: F51 (same shape as the drain of F24). `defer func() { err = cerrors.LogOrReplace(err, closeErr, …) }()` only
+// changes what the function returns when err is a NAMED result. With an unnamed result the deferred assignment writes a
+// local that nobody reads any more: the close/teardown error of the node is lost, the run's error is nil and the
+// pipeline is finalised as cleanly stopped.
+func c11R15(c *Ctx) {
+	r := c.R.Rule("R15", "K6 a deferred error reaches the caller: in the stream nodes, the lifecycle services and the connector package, a deferred closure that assigns an error to a variable of the enclosing function assigns a NAMED RESULT (an assignment to a plain local is dead: the function's return value was already fixed)", 6)
+	n := 0
+	for _, rel := range []string{pStream, pLife, pLife2, pConn, pFunnel} {
+		p := c.W.Pkg(rel)
+		if p == nil {
+			continue
+		}
+		for _, fn := range c.W.AllFuncs(c.W.SSA[p.Types]) {
+			if fn.Parent() != nil || kit.ErrIndex(fn) < 0 {
+				continue
+			}
+			res := fn.Signature.Results()
+			for _, b := range fn.Blocks {
+				for _, in := range b.Instrs {
+					d, ok := in.(*ssa.Defer)
+					if !ok {
+						continue
+					}
+					cl := closureOf(d)
+					if cl == nil {
+						continue
+					}
+					for _, cb := range cl.Blocks {
+						for _, ci := range cb.Instrs {
+							st, ok := ci.(*ssa.Store)
+							if !ok {
+								continue
+							}
+							fv, ok := st.Addr.(*ssa.FreeVar)
+							if !ok || !types.Identical(fv.Type().(*types.Pointer).Elem(), types.Universe.Lookup("error").Type()) {
+								continue
+							}
+							cell, _ := kit.ResolveFreeVar(fv).(*ssa.Alloc)
+							if cell == nil || cell.Parent() != fn {
+								continue
+							}
+							n++
+							named := false
+							for i := 0; i < res.Len(); i++ {
+								if res.At(i).Name() != "" && res.At(i).Name() == cell.Comment {
+									named = true
+								}
+							}
+							c.R.Check(named, r, kit.FuncKey(fn)+": the deferred error assignment targets a named result", c.Pos(st.Pos()), cell.Comment, "a deferred function of "+kit.FuncKey(fn)+" assigns an error to the local `"+cell.Comment+"`, but the function's error result is unnamed: the assignment cannot change what was returned — the error of the deferred close/teardown is lost (the node ends with nil, the pipeline is finalised as cleanly stopped)", true)
+						}
+					}
+				}
+			}
+		}
+	}
+	c.R.Check(n >= 6, r, "deferred error assignments", "", "found", "fewer deferred error assignments found than on the reference tree", true)
+}
+
+// c10R12: F49/F50 (known findings). StartWithBackoff reads the stop markers after the back-off wait and then calls
+// Start, which fetches the pipeline, builds the nodes / opens the sink and workers and dispenses plugins before it
+// publishes the new run. Until then runningPipelines still holds the dead run and the status is Recovering, so Stop
+// and StopAll accept a request, mark the DEAD run and return nil — and the restart goes live. The stop has to be
+// looked at again once the new run is published, and applied to it.
+func c10R12(c *Ctx) {
+	r := c.R.Rule("R12", "K3 a stop accepted while the recovery restart is being built is not lost (both engines): behind the success edge of the nested Start in StartWithBackoff the run's stop marker / the shutdown flag is read again", 2)
+	for _, t := range []struct{ eng, rel string }{{"v1", pLife}, {"v2", pLife2}} {
+		fn := c.SSA(r, t.rel, "(*Service).StartWithBackoff")
+		start := c.Fn(r, t.rel, "(*Service).Start")
+		intent := c.Field(r, t.rel, "runnablePipeline", "intentionalStop")
+		shut := c.Field(r, t.rel, "Service", "isGracefulShutdown")
+		if fn == nil || start == nil || intent == nil {
+			continue
+		}
+		calls := kit.CallsTo(fn, Set(start))
+		if len(calls) == 0 {
+			c.R.Fail(r, t.eng+" StartWithBackoff: nested Start", c.Pos(fn.Pos()), "no call of Service.Start found in StartWithBackoff")
+			continue
+		}
+		for _, call := range calls {
+			rechecked := false
+			for _, e := range kit.OKEdges(call) {
+				for _, f := range []*types.Var{intent, shut} {
+					if f == nil {
+						continue
+					}
+					for _, ld := range atomicCalls(fn, f, "Load") {
+						if ld.Block() == e.To || e.To.Dominates(ld.Block()) {
+							rechecked = true
+						}
+					}
+				}
+				// or handed to a helper behind the edge that reads them
+				for _, b := range fn.Blocks {
+					if !(b == e.To || e.To.Dominates(b)) {
+						continue
+					}
+					for _, in := range b.Instrs {
+						if ci, ok := in.(ssa.CallInstruction); ok {
+							if h := ci.Common().StaticCallee(); h != nil && h.Pkg == fn.Pkg && (len(atomicCalls(h, intent, "Load")) > 0 || (shut != nil && len(atomicCalls(h, shut, "Load")) > 0)) {
+								rechecked = true
+							}
+						}
+					}
+				}
+			}
+			c.R.Check(rechecked, r, t.eng+" StartWithBackoff: a stop accepted during the restart build is applied to the new run", c.Pos(call.Pos()), "markers re-read behind Start[ok]", "StartWithBackoff checks the stop markers only BEFORE the nested Start; while Start builds the new run (fetching the pipeline, building nodes / opening sink and workers, dispensing plugins) the published entry is still the dead run and the status Recovering, so Stop(force) / StopAll mark the dead run and return nil — the restart then goes live: a pipeline the user (or the shutdown) just stopped is Running again, and at shutdown Wait returns while it runs", true)
+		}
 	}
 }
